@@ -244,15 +244,8 @@ func excludedShape(prop string, s *scanSpec) string {
 		}
 		// (stale_lock_flag_early_return for C02 and c06_fatal_reap_nonmember for C06 were excluded here until main restated
 		// check_C02_group / api_faithful; the corpus files stay as regression inputs and are quiet now.)
-		// zero_created_zero_lastout: registration-lag lookup with lastScaleOut = zero time and a node whose creation
-		// timestamp is the zero time: Go's Sub gives 0 (not newer), the model's newer_than None says newer.
-		if g.State.ScaleDelta > 0 && g.State.LastOutAgeNs == nil {
-			for _, n := range s.Nodes {
-				if n.CreationTimestamp.IsZero() && n.Labels[g.Opts.LabelKey] == g.Opts.LabelValue {
-					return "zero_created_zero_lastout"
-				}
-			}
-		}
+		// (zero_created_zero_lastout was excluded here until main's Scan.newer_than read a never-set lastScaleOut as Go's zero
+		// time; corpus/zero_created_zero_lastout.json is the regression input and is quiet now.)
 	}
 	return ""
 }
